@@ -288,13 +288,21 @@ func runArchiveScenario(seed uint64, size int, t *Trace) error {
 		}
 		mu.Unlock()
 	}
+	// every request that got past the limiter (any answer but 429), with the caller's before/after times
+	type span struct{ b, a time.Time }
+	var passed []span
 	get := func() int {
+		b := time.Now()
 		st, _, err := e.Get("/api/v1/archive")
+		a := time.Now()
+		mu.Lock()
 		if err == nil && st == 200 {
-			mu.Lock()
 			okCount++
-			mu.Unlock()
 		}
+		if err == nil && st != 429 {
+			passed = append(passed, span{b, a})
+		}
+		mu.Unlock()
 		collect()
 		return st
 	}
@@ -328,6 +336,34 @@ func runArchiveScenario(seed uint64, size int, t *Trace) error {
 		}
 		wg.Wait()
 	}
+	// a phase in which building the archive fails (a public file is missing): the requests still went through
+	// the limiter, so no more than the limit of them may get past it within a window, whatever their outcome
+	pub := filepath.Join(e.Dir, "gcaTempPubKey.dat")
+	if os.Rename(pub, pub+".aside") == nil {
+		time.Sleep(rate + 10*time.Millisecond)
+		var wg sync.WaitGroup
+		for k := 0; k < c.ApiArchiveLimit+4; k++ {
+			wg.Add(1)
+			go func() { defer wg.Done(); get() }()
+		}
+		wg.Wait()
+		os.Rename(pub+".aside", pub)
+		t.Count("archive.failing-burst")
+	}
+	// judged on the callers' clocks: requests whose whole [before, after] lies inside a span shorter than the
+	// window were all admitted within one window
+	overPassed := 0
+	for i := range passed {
+		n := 0
+		for j := range passed {
+			if !passed[j].b.Before(passed[i].b) && passed[j].a.Before(passed[i].b.Add(rate)) {
+				n++
+			}
+		}
+		if n > overPassed {
+			overPassed = n
+		}
+	}
 	sort.Slice(adm, func(i, j int) bool { return adm[i].Before(adm[j]) })
 	worst := 0
 	for i := range adm {
@@ -342,6 +378,8 @@ func runArchiveScenario(seed uint64, size int, t *Trace) error {
 	obs := "ok"
 	if worst > c.ApiArchiveLimit {
 		obs = fmt.Sprintf("VIOLATION:%d archives admitted within one window of %v (limit %d)", worst, rate, c.ApiArchiveLimit)
+	} else if overPassed > c.ApiArchiveLimit {
+		obs = fmt.Sprintf("VIOLATION:%d requests got past the limiter within one window of %v (limit %d)", overPassed, rate, c.ApiArchiveLimit)
 	} else if starvedBy != "" {
 		obs = "VIOLATION:" + starvedBy
 	}
